@@ -424,7 +424,41 @@ def r7_sibling_init(repo: Repo, rep):
         rep.check(R, assigned, fw.site(), ci.fq, "self.last_unreduced_loss initialised in __init__ (chain)", "read in forward, never assigned by a constructor", "last_unreduced_loss uninitialised")
 
 
+def r8_per_function_points(repo: Repo, rep):
+    R = rep.rule("R-C04-8", "operator conditions: the trunk points are copied once per input function BEFORE their coordinates are tracked (every function differentiates its own copy)", floor=1,
+                 why="coordinates shared by all functions receive the gradient of every function: a derivative w.r.t. them is the sum over the batch of functions")
+    n = 0
+    for modname, cname in SCOPE:
+        if "deeponet" not in modname:
+            continue
+        ci = repo.cls(f"{modname}.{cname}")
+        fi = ci.methods.get("forward")
+        if fi is None:
+            continue
+        for p in paths(fi.node):
+            if p.ret is RAISE or p.ret is None:
+                continue
+            tracks = [c for c in _calls(p.ret) if _is_track(c)]
+            seen = set()
+            for t in tracks:
+                if def_id(t) in seen or not isinstance(t.func, ast.Attribute):
+                    continue
+                seen.add(def_id(t))
+                recv = t.func.value
+                reps = [c for c in ast.walk(recv) if isinstance(c, ast.Call) and isinstance(c.func, ast.Attribute) and c.func.attr in ("repeat", "tile", "repeat_interleave", "expand")
+                        or (isinstance(c, ast.Call) and attr_chain(c.func) in ("torch.repeat_interleave", "torch.tile"))]
+                per_fn = [c for c in reps if any("function_set" in dump(a) and "len(" in dump(a) for a in list(c.args) + [k.value for k in c.keywords])]
+                views = [c for c in per_fn if isinstance(c.func, ast.Attribute) and c.func.attr == "expand"]
+                n += 1
+                rep.check(R, bool(per_fn) and not views, fi.site(p.ret_node), fi.fq, "tracked points = draw replicated len(function_set) times (a copy, not a broadcast view)",
+                          f"tracked `{dump(recv)[:120]}`", f"tracked {dump(recv)[:100]}")
+            break
+    if n == 0:
+        rep.undecided(R, "src/torchphysics/problem/conditions/deeponet_condition.py", "DeepONet conditions", "a tracked draw in an operator condition", "none found")
+
+
 def run(repo: Repo, rep):
+    r8_per_function_points(repo, rep)
     r1234_forward(repo, rep)
     r3b_data_loop(repo, rep)
     r5_reductions(repo, rep)
